@@ -228,3 +228,11 @@ class S2(N):
 
 CLASSES = {c.__name__: c for c in [K1, K2, W1, W2, S2, EH, TaskSelf, Leaf, Inner, Bag, Req, TaskA, TaskOut, Pre, Init, NewL, OldL, NewT, OldT, V1, V2]}
 ENUMS = {"Color": Color, "Shape": Shape, "Level": Level, "Mode": Mode}
+
+
+def _register_schema2():
+    from . import schema2
+    CLASSES["Leaf2"] = schema2.Leaf
+
+
+_register_schema2()
